@@ -2,7 +2,7 @@
    Constant pacer: proved in full (exact integer arithmetic).  Linear and sine pacers: see
    the partial statements at the end and DESIGN.md. *)
 From Coq Require Import ZArith List Bool Lia.
-From V Require Import Model.Pacer Proofs.PacerProofs Model.LinearPacer Proofs.LinearProofs.
+From V Require Import Model.Pacer Proofs.PacerProofs Model.LinearPacer Proofs.LinearProofs Model.Trig Model.SinePacer Proofs.TrigProofs Proofs.SineProofs.
 From Coq Require Import Qround.
 Import ListNotations.
 Open Scope Z_scope.
@@ -138,6 +138,46 @@ Example linear_example :
   lin_pace 100 1000000000 (10 # 1) 1000000000 105 = LWait 9090909 /\ lin_adm 100 1000000000 (10 # 1) 1000000000 105.
 Proof. split; [vm_compute; reflexivity | vm_compute; discriminate]. Qed.
 End Linear.
+
+(* ---- sine pacer: the declared schedule over the reals ----------------------------------------- *)
+(* These statements use Coq's real numbers (standard-library axioms, listed below by
+   Print Assumptions) and the Interval tactic for the bounds on PI (primitive integers / floats). *)
+Section Sine.
+Import Reals Qreals Lra.
+Local Open Scope R_scope.
+
+(* the Q-interval evaluator used by the checker encloses the real schedule
+     H(t) = M t + (A P / 2 pi)(cos O - cos(O + 2 pi t / P))   for every pacer, every t *)
+Theorem sine_schedule_enclosed : forall p t, (0 < s_period p)%Z -> start_ok p -> rin (sine_H p t) (sine_H_R p t).
+Proof. exact sine_H_sound. Qed.
+Print Assumptions sine_schedule_enclosed.
+
+Theorem sine_rate_enclosed : forall p t, (0 < s_period p)%Z -> (0 <= t)%Z -> start_ok p -> rin (sine_rate p t) (sine_rate_R p t).
+Proof. exact sine_rate_sound. Qed.
+
+(* with 0 <= Amp <= Mean the schedule never decreases (|cos a - cos b| <= |a - b|) *)
+Theorem sine_schedule_mono : forall p t1 t2, (0 < s_period p)%Z -> 0 <= Q2R (s_amp p) <= Q2R (s_mean p) -> (t1 <= t2)%Z ->
+  sine_H_R p t1 <= sine_H_R p t2.
+Proof. exact sine_H_mono. Qed.
+Print Assumptions sine_schedule_mono.
+
+(* PARTIAL: SinePacer.Pace inverts the schedule numerically in float64 and is not modelled.  For
+   every history all of whose calls keep the per-call contract (which the checker decides on each
+   real call with the enclosures above), the count stays within one hit of the schedule: *)
+Theorem sine_closed_loop_upper_partial : forall p (pace : Z -> Z -> outcome) stalls,
+  (0 < s_period p)%Z -> 0 <= Q2R (s_amp p) <= Q2R (s_mean p) ->
+  (forall t k w, pace t k = Wait w -> IZR k <= sine_H_R p t + 1 -> IZR (k + 1) <= sine_H_R p (t + Z.max w 0) + 1) ->
+  Forall (fun st => IZR (snd st) <= sine_H_R p (fst st) + 1) (loop_run pace (0, 0)%Z stalls).
+Proof.
+  intros p pace stalls HP HA Hc.
+  apply (loop_run_adm_calls pace (fun t k => IZR k <= sine_H_R p t + 1) (fun _ _ => True)).
+  - intros t t' c H Ht. pose proof (sine_H_mono p t t' HP HA Ht). lra.
+  - intros t k w _ H E. exact (Hc t k w E H).
+  - cbn [fst snd]. unfold sine_H_R. cbn. lra.
+  - clear. revert stalls. intros stalls. generalize (0, 0)%Z. induction stalls as [|s tl IH]; intros st; cbn; [exact I|].
+    split; [exact I|]. destruct (loop_step pace st s); [apply IH | exact I].
+Qed.
+End Sine.
 
 Example const_example :
   const_pace 3 10 297 99 = Wait 37 /\ const_pace 2000000000 1000000000 0 0 = Wait 1 /\
